@@ -14,6 +14,10 @@ type TypeModel struct {
 	Package        string
 	UnderlyingType string // "struct", "int", "string", etc. // FIXME Do We need this?
 	Methods        []TypeMethod
+
+	// IsInterface is true for a defined interface type: its methods are those of the interface itself,
+	// and a pointer to it has an empty method set.
+	IsInterface bool
 }
 
 // TypeMethod represents a method of a type
@@ -98,6 +102,7 @@ func findTypesInPackage(
 			Package:        pkg.Path(),
 			UnderlyingType: underlyingType,
 			Methods:        methods,
+			IsInterface:    types.IsInterface(namedType),
 		}
 
 		result = append(result, model)
@@ -140,6 +145,10 @@ func extractMethodsFromNamedType(named *types.Named) []TypeMethod {
 	ptrType := types.NewPointer(named)
 	methodSet := types.NewMethodSet(ptrType)
 	valueMethodSet := types.NewMethodSet(named)
+	if types.IsInterface(named) {
+		// *I has no methods at all; the methods of a defined interface type are those of its values
+		methodSet = valueMethodSet
+	}
 
 	for i := 0; i < methodSet.Len(); i++ {
 		selection := methodSet.At(i)
